@@ -168,4 +168,38 @@ PROPS = {
             rap("history", "^TestC05History$", 2000, 20000, 4, 16),
         ],
     },
+    "C01": {
+        "level": "exploration",
+        "level_text": "generated Muxer call histories whose output is fed to the Demuxer; the oracle is the history itself (reference model "
+                      "of what was written: payloads, header models, configuration at each table emission), compared field by field per PID",
+        "level_note": "round trip through the library's own writer and reader cannot see an error they share (C11/C12/C13 cover that with "
+                      "independent codecs); adaptation fields are compared when they share the first packet with the PES header; "
+                      "discontinuity_indicator is never set; stream ids where ISO and the library's rule disagree are not generated",
+        "technique": "rapid stateful generation of Muxer histories + mux->demux round-trip oracle against a reference model of the history",
+        "rule": "rapid-generated operation histories (1..42 calls); non-trivial = >= 2 PIDs written, >= 1 PES spanning >= 2 packets and >= 1 "
+                "adaptation field; distinct by history",
+        "assumptions": ["the last PES of a stream incarnation may be lost when the same PID is removed and re-added (new continuity counter)"],
+        "units": [
+            rap("roundtrip", "^TestC01RoundTrip$", 3000, 25000, 4, 16),
+        ],
+    },
+    "C17": {
+        "level": "exploration",
+        "level_text": "generated Muxer histories (random up to 200 calls, dedicated >= 33-change histories for the version wrap) plus a "
+                      "bounded-exhaustive enumeration of all histories up to length 5 (quick) / 6 (thorough) over a 10-operation alphabet for "
+                      "periods 1..3; schedule, content and versioning of the tables are read from the writer's bytes with independent decoders and "
+                      "compared with a reference model of the configuration",
+        "level_note": "only REQUIRED emissions are asserted (first, within every <period> successful WriteData calls, before RAPs); extra emissions are "
+                      "never an alarm; the version rule is asserted for the PMT (the table whose content the operations change); automatic PIDs are "
+                      "checked by predicate, not by value (the value is learnt from a scratch Muxer replaying the same Add/Remove calls)",
+        "technique": "rapid stateful generation + bounded-exhaustive enumeration of Muxer histories against a reference model of the table logic",
+        "rule": "rapid-generated histories: non-trivial = >= 3 emissions with a version change and a periodic retransmission; version-wrap histories: "
+                "all; exhaustive unit: every enumerated history is distinct by construction",
+        "assumptions": ["PMT too large for one packet and invalid PCR PID make the emission fail; such calls are not required to emit"],
+        "units": [
+            rap("random", "^TestC17Random$", 1200, 12000, 4, 16),
+            rap("version_wrap", "^TestC17VersionWrap$", 150, 1500, 2, 8),
+            det("exhaustive", "^TestC17Exhaustive$", quick={"shards": 8}, thorough={"shards": 16, "timeout": 3000}),
+        ],
+    },
 }
